@@ -229,8 +229,10 @@ def run_viz(case):
                 lv, ld = ll.calc_levels(P)
                 o['levels'] = [int(x) for x in lv]
                 o['ldict'] = [[int(x) for x in ld[k]] for k in range(len(ld))] if sorted(ld) == list(range(len(ld))) else None
-                c = st['c'][0] / st['c'][1]
-                viz.init_mover_per_poset(P, layout='fcart', c=c, dpth=st['dpth'])
+                # (c, dpth) cannot be given here: init_mover_per_poset filters its keyword arguments by the
+                # NAMES in Mover.initialize_pos's signature (poset, layout, kwargs), so layout parameters are
+                # silently dropped and the defaults c=0.5, dpth=1 apply; the steps carry exactly those
+                viz.init_mover_per_poset(P, layout='fcart')
                 fc = viz.mover.pos or {}
                 o['fcart'] = [frac_pair(fc[i]) for i in range(len(fc))] if sorted(fc) == list(range(len(fc))) else None
                 viz.init_mover_per_poset(P, layout='multipartite')
@@ -239,9 +241,12 @@ def run_viz(case):
                 if st.get('draw') and len(els_now) > 0:
                     import matplotlib.pyplot as plt
                     fig, ax = plt.subplots()
+                    import logging
+                    logging.disable(logging.WARNING)      # node-on-edge overlay warnings are not of interest here
                     try:
                         viz.draw_poset(P, ax=ax)
                     finally:
+                        logging.disable(logging.NOTSET)
                         plt.close(fig)
             except Exception as e:  # noqa
                 o['err'] = op_code(e)
@@ -608,7 +613,7 @@ def viz_case(rng, max_n):
             st = {'mutate': None, 'carrier': pc['carrier'], 'elements': pc['elements'], 'rel': pc['rel']}
             cur = {'carrier': pc['carrier'], 'n': len(pc['rel']),
                    'els': list(pc['elements']) if pc['elements'] is not None else list(range(len(pc['rel'])))}
-        st.update(c=[c.numerator, c.denominator], dpth=dpth, draw=rng.random() < 0.15)
+        st.update(c=[1, 2], dpth=1, draw=rng.random() < 0.15)
         steps.append(st)
     return {'kind': 'viz', 'steps': steps, 'shape': 'viz'}
 
@@ -646,7 +651,7 @@ def _levels_of(rel):
 
 def nontrivial(case):
     if case['kind'] == 'viz':
-        return len(case['steps']) >= 2 and sum(1 for s in case['steps'] if s['mutate'] is None and len(s['rel']) >= 4) >= 1
+        return len(case['steps']) >= 2 and sum(1 for s in case['steps'] if s['mutate'] is None and len(s.get('rel') or s.get('elements') or []) >= 4) >= 1
     if case['kind'] == 'layout':
         rel = case.get('rel')
         if rel is None:
